@@ -53,6 +53,8 @@ Points == {
   P("-1e300",    TRUE,  {"Float64"}, {"float64", "decstr", "expstr", "jsonnum"}),
   P("-2^128",    TRUE,  {"Float64"}, {"float64", "decstr", "expstr", "jsonnum"}),
   P("-maxF32",   TRUE,  {"Float64", "Float32"}, {"float32", "float64", "decstr", "expstr", "jsonnum"}),
+  \* finite decimal / exponent text beyond every numeric type: no destination can hold it
+  P("1e400",     TRUE,  {}, {"decstr", "expstr"}),
   P("NaN",       FALSE, {"Float64", "Float32"}, {"float32", "float64", "decstr"}),
   P("+Inf",      FALSE, {"Float64", "Float32"}, {"float32", "float64", "decstr"}),
   P("-Inf",      FALSE, {"Float64", "Float32"}, {"float32", "float64", "decstr"}) }
